@@ -34,6 +34,9 @@ class NameTerm:
     def __init__(self, parts):
         self.parts = list(parts)
 
+    def truth(self):
+        return TRUE
+
     def index(self):
         t = [p for p in self.parts if z3.is_expr(p)]
         if len(t) != 1:
@@ -99,7 +102,8 @@ class KernExec(StrExec):
 
     def assign(self, target, val, g):
         if isinstance(target, ast.Attribute) and isinstance(target.value, ast.Name) and target.value.id == "self":
-            self.self_attrs[target.attr] = val
+            from vlib.pysx.core import merge, UNDEF
+            self.self_attrs[target.attr] = merge(g, val, self.self_attrs.get(target.attr, UNDEF))
             return
         if isinstance(target, ast.Name) and isinstance(val, NameTerm):
             old = self.env.get(target.id)
@@ -250,10 +254,38 @@ def make_builtins(fs, naming):
         return v
 
     def py_open(ex, args, kw, g):
-        idx = args[0].index()
+        mode = args[1] if len(args) > 1 else kw.get("mode", "r")
+        if not isinstance(mode, str):
+            raise PyUnsupported("open() with a symbolic mode")
+        alts = [(c, v) for c, v in alts_of(args[0]) if v is not None]
+        if len(alts) != 1 or not isinstance(alts[0][1], NameTerm):
+            raise PyUnsupported("open() path")
+        g = AND(g, alts[0][0])
+        idx = alts[0][1].index()
         existed = fs.exists(idx, g)
+        if any(ch in mode for ch in "wax+"):
+            # builtin open for writing: no exclusive create unless mode 'x'; 'w' truncates at once
+            excl = "x" in mode
+            flags = frozenset(["O_WRONLY", "O_CREAT"] + (["O_EXCL"] if excl else []) +
+                              (["O_TRUNC"] if "w" in mode else []))
+            if excl:
+                ex.raise_("FileExistsError", AND(g, existed))
+            succ = NOT(existed) if excl else TRUE
+            fd = fd_of(idx, excl)
+            fs.opens.append((g, idx, fd, flags, succ, existed))
+            if "w" in mode:
+                fs.writes.append((g, fd))      # truncation destroys what was there
+            return PyObj("file", idx=idx, fd=fd)
         ex.raise_("FileNotFoundError", AND(g, NOT(existed)))
         return PyObj("file", idx=idx)
+
+    def file_write(ex, args, kw, g):
+        fd = args[0].attrs.get("fd")
+        if fd is None:
+            ex.raise_("UnsupportedOperation", g)
+            return None
+        fs.writes.append((g, fd))
+        return 0
 
     def file_read(ex, args, kw, g):
         same = fs.fresh("read_same")
@@ -268,7 +300,7 @@ def make_builtins(fs, naming):
     cfg = PyObj("config", kernel_output_dir="outdir", kernel_naming=naming, backend_checks_enabled=False)
     b = {("os", "open"): os_open, ("os", "write"): os_write, ("os", "close"): os_close,
          ("os.path", "join"): path_join, ("os.path", "isfile"): path_isfile, ("os.path", "exists"): path_isfile,
-         ("os.path", "getsize"): path_getsize, ("file", "read"): file_read,
+         ("os.path", "getsize"): path_getsize, ("file", "read"): file_read, ("file", "write"): file_write,
          ("self", "_rename_psyir"): rename_psyir,
          ("self", "get_kernel_schedule"): lambda ex, a, k, g: PyObj("sched", root="ROOT"),
          ("Config", "get"): lambda ex, a, k, g: cfg,
@@ -281,16 +313,57 @@ def make_builtins(fs, naming):
     return b
 
 
-def encode(naming, R):
+def init_constants():
+    """attributes CodedKern.__init__ sets to a literal (read from the AST of the real constructor): the
+    object state a fresh kernel starts from, for the encoding and for the replay object alike"""
+    import inspect
+    import textwrap
+    from psyclone.psyGen import CodedKern
+    out = {}
+    tree = ast.parse(textwrap.dedent(inspect.getsource(CodedKern.__init__))).body[0]
+    for st in ast.walk(tree):
+        if isinstance(st, ast.Assign) and len(st.targets) == 1 and isinstance(st.value, ast.Constant):
+            t = st.targets[0]
+            if isinstance(t, ast.Attribute) and isinstance(t.value, ast.Name) and t.value.id == "self":
+                out[t.attr] = st.value.value
+    return out
+
+
+class View:
+    """the events of one generation (one call of rename_and_write) + the shared environment"""
+
+    def __init__(self, fs, ex, lo, exc, unwind):
+        self.opens, self.writes = fs.opens[lo[0]:], fs.writes[lo[1]:]
+        self.reads, self.renames = fs.reads[lo[2]:], fs.renames[lo[3]:]
+        self.exc = exc
+        self.obligations = unwind
+        self.queries, self.constraints = fs.queries, fs.constraints
+
+
+def encode(naming, R, generations=1):
+    """-> (executor, environment, [View per generation]).  Generation k+1 starts from the object state
+    generation k left behind (every `self.x = ...` it executed, guarded), with `modified` set again (the
+    kernel has been transformed further) and is only entered when generation k returned normally."""
     from psyclone.psyGen import CodedKern
     fs = Env()
-    ex = KernExec(CodedKern.rename_and_write, fs, while_bound=R,
-                  self_attrs={"modified": True, "module_inline": False, "module_name": "kern_mod",
-                              "_module_name": "kern_mod", "name": "kern_code"})
+    attrs = dict(init_constants())
+    attrs.update({"modified": True, "module_inline": False, "module_name": "kern_mod",
+                  "_module_name": "kern_mod", "name": "kern_code"})
+    ex = KernExec(CodedKern.rename_and_write, fs, while_bound=R, self_attrs=attrs)
     ex.builtins = make_builtins(fs, naming)
-    ex.env["self"] = "<self>"
-    ex.block(ex.fn_ast.body, TRUE)
-    return ex, fs
+    ex.skip_dead = True      # a later generation may never reach the naming loop: names bound there do not exist
+    views = []
+    g = TRUE
+    for _ in range(generations):
+        lo = (len(fs.opens), len(fs.writes), len(fs.reads), len(fs.renames))
+        nob = len(ex.obligations)
+        ex.env = {"self": "<self>"}
+        ex.exc, ex.ret, ex.loops = {}, FALSE, []
+        ex.self_attrs["modified"] = True
+        ex.block(ex.fn_ast.body, g)
+        views.append(View(fs, ex, lo, dict(ex.exc), list(ex.obligations[nob:])))
+        g = AND(g, NOT(OR(*ex.exc.values()))) if ex.exc else g
+    return ex, fs, views
 
 
 def obligations(ex, fs, naming, R):
@@ -343,7 +416,7 @@ def obligations(ex, fs, naming, R):
 
 
 # ---------------------------------------------------------------- replay on the real method
-def replay(naming, R, model, fs):
+def replay(naming, R, model, fs, generation=0):
     """drive the real CodedKern.rename_and_write on a real temporary directory whose state, as seen
     through wrapped os/open functions, follows the witness answers in query order"""
     import builtins as _b
@@ -415,9 +488,21 @@ def replay(naming, R, model, fs):
             return "CODE" if same else "OTHER"
 
     def py_open(path, mode="r", *a, **k):
-        if str(path).startswith(workdir) and "r" in mode:
+        if str(path).startswith(workdir) and not any(ch in mode for ch in "wax+"):
             next_exists(path)
             return FakeFile(path)
+        if str(path).startswith(workdir):
+            existed = next_exists(path)
+            excl = "x" in mode
+            fl = os.O_WRONLY | os.O_CREAT | (os.O_EXCL if excl else 0) | (os.O_TRUNC if "w" in mode else 0)
+            try:
+                fh = real_open(path, mode, *a, **k)
+            except OSError:
+                log["opens"].append((os.path.basename(path), fl, False, existed))
+                raise
+            log["opens"].append((os.path.basename(path), fl, True, existed))
+            log["writes"].append((os.path.basename(path), excl, existed))
+            return fh
         return real_open(path, mode, *a, **k)
 
     class Cfg:
@@ -426,11 +511,14 @@ def replay(naming, R, model, fs):
         backend_checks_enabled = False
 
     class FakeKern:
-        modified = True
-        module_inline = False
-        module_name = "kern_mod"
-        _module_name = "kern_mod"
-        name = "kern_code"
+        def __init__(self):
+            for k_, v_ in init_constants().items():
+                setattr(self, k_, v_)
+            self.modified = True
+            self.module_inline = False
+            self.module_name = "kern_mod"
+            self._module_name = "kern_mod"
+            self.name = "kern_code"
 
         def _rename_psyir(self, suffix):
             log["renames"].append(suffix)
@@ -448,10 +536,17 @@ def replay(naming, R, model, fs):
                 mock.patch("psyclone.psyGen.FortranWriter", lambda **k: (lambda root: "CODE")), \
                 mock.patch("psyclone.line_length.FortLineLength.process", lambda self, c: c), \
                 mock.patch("builtins.open", py_open):
-            try:
-                CodedKern.rename_and_write(FakeKern())
-            except Exception as e:  # pylint: disable=broad-except
-                log["exc"] = type(e).__name__
+            kern = FakeKern()
+            for gen in range(generation + 1):
+                # events of earlier generations are dropped: the obligations are stated per generation
+                for k_ in ("writes", "opens", "renames", "read_same"):
+                    del log[k_][:]
+                kern.modified = True          # the kernel has been transformed (again)
+                try:
+                    CodedKern.rename_and_write(kern)
+                except Exception as e:  # pylint: disable=broad-except
+                    log["exc"] = type(e).__name__
+                    break
     finally:
         shutil.rmtree(workdir, ignore_errors=True)
     return log
@@ -489,77 +584,86 @@ def main():
                      "no-clobber obligations for both naming schemes within R naming attempts")
     from psyclone.psyGen import CodedKern
     R = 3 if tier == "quick" else 5
+    G = 2 if tier == "quick" else 3
     for naming in ("multiple", "single"):
         t0 = time.time()
         try:
-            ex, fs = encode(naming, R)
-            obl = obligations(ex, fs, naming, R)
+            ex0, fs, views = encode(naming, R, G)
+            obls = [obligations(v, v, naming, R) for v in views]
         except PyUnsupported as e:
             chk.harness_error(f"pysx cannot follow the source ({naming}): {e}")
             continue
-        assume = list(fs.constraints) + list(ex.assumptions)
-        s = z3.Solver()
-        s.set("timeout", 60000)
-        for a in assume:
-            s.add(a)
-        # termination: if one of the first R exclusive creates succeeds the loop needs at most R iterations
-        unwind = [o for n, o in ex.obligations if n == "unwinding"]
-        some_free = OR(*[AND(g, succ) for g, idx, fd, flags, succ, existed in fs.opens
-                         if "O_EXCL" in flags][:R])
-        chk.evaluations += 1
-        chk.count("queries")
-        s.push()
-        s.add(TRUE)
-        reach = str(s.check())
-        s.pop()
-        if reach == "sat":
-            chk.count("reachability_twins_ok")
-        if naming == "multiple":
-            for u in unwind:
-                obl.append(("naming loop does not terminate although a name is free", AND(some_free, NOT(u))))
-            s.add(some_free)
-        else:
-            for u in unwind:
-                obl.append(("naming loop does not terminate (single)", NOT(u)))
-        for what, cond in obl:
+        assume = list(fs.constraints) + list(ex0.assumptions)
+        for gen, (view, obl) in enumerate(zip(views, obls)):
+            s = z3.Solver()
+            s.set("timeout", 60000)
+            for a in assume:
+                s.add(a)
+            # termination: if one of the first R exclusive creates succeeds the loop needs at most R iterations
+            unwind = [o for n, o in view.obligations if n == "unwinding"]
+            some_free = OR(*[AND(g, succ) for g, idx, fd, flags, succ, existed in view.opens
+                             if "O_EXCL" in flags][:R])
+            # this generation is entered: no earlier one raised
+            entered = AND(*[NOT(OR(*v.exc.values())) for v in views[:gen] if v.exc])
+            s.add(entered)
+            chk.evaluations += 1
             chk.count("queries")
-            chk.nontrivial.add(f"{naming}|{what}")
-            s.push()
-            s.add(cond)
-            t1 = time.time()
-            r = str(s.check())
-            chk.cov["solver_s"] += time.time() - t1
-            if r == "unsat":
-                chk.count("unsat")
-                chk.sample({"scheme": naming, "obligation": what, "verdict": "unsat"}, 16)
-                s.pop()
-                continue
-            if r != "sat":
-                chk.count("inconclusive")
-                s.pop()
-                continue
-            m = s.model()
-            s.pop()
-            try:
-                log = replay(naming, R, m, fs)
-                ok = violated_concretely(what, log, naming)
-            except Exception as e:  # pylint: disable=broad-except
-                log, ok = {"error": f"{type(e).__name__}: {e}"}, None
-            key = {"unit": "CodedKern.rename_and_write", "template": naming, "params": {"what": what}}
-            if ok:
-                chk.count("sat_replayed")
-                rr = chk.report(key, f"{naming}: {what}", f"scheme {naming}\nobligation: {what}\nreplay log: {log}\n",
-                                name=f"{naming}_{what[:40].replace(' ', '_').replace('/', '_')}.txt")
-                chk.sample({"scheme": naming, "obligation": what, "verdict": "sat, replayed: " + rr,
-                            "log": str(log)[:300]}, 16)
-            elif ok is False:
-                chk.count("sat_not_reproduced")
-                chk.harness_error(f"model for '{what}' ({naming}) did not reproduce: {log}")
+            reach = str(s.check())
+            if reach == "sat":
+                chk.count("reachability_twins_ok")
             else:
-                chk.count("inconclusive")
-                chk.cov["by_products"].append({"obligation": what, "replay": str(log)[:300]})
+                chk.harness_error(f"generation {gen + 1} ({naming}) is not reachable: {reach}")
+                continue
+            if naming == "multiple":
+                for u in unwind:
+                    obl.append(("naming loop does not terminate although a name is free", AND(some_free, NOT(u))))
+                if not z3.is_false(z3.simplify(some_free)):
+                    s.add(some_free)
+            else:
+                for u in unwind:
+                    obl.append(("naming loop does not terminate (single)", NOT(u)))
+            for what, cond in obl:
+                chk.count("queries")
+                chk.nontrivial.add(f"{naming}|gen{gen + 1}|{what}")
+                s.push()
+                s.add(cond)
+                t1 = time.time()
+                r = str(s.check())
+                chk.cov["solver_s"] += time.time() - t1
+                if r == "unsat":
+                    chk.count("unsat")
+                    chk.sample({"scheme": naming, "generation": gen + 1, "obligation": what, "verdict": "unsat"}, 40)
+                    s.pop()
+                    continue
+                if r != "sat":
+                    chk.count("inconclusive")
+                    s.pop()
+                    continue
+                m = s.model()
+                s.pop()
+                try:
+                    log = replay(naming, R, m, fs, gen)
+                    ok = violated_concretely(what, log, naming)
+                except Exception as e:  # pylint: disable=broad-except
+                    log, ok = {"error": f"{type(e).__name__}: {e}"}, None
+                key = {"unit": "CodedKern.rename_and_write", "template": naming,
+                       "params": {"what": what, "generation": gen + 1}}
+                if ok:
+                    chk.count("sat_replayed")
+                    rr = chk.report(key, f"{naming}, generation {gen + 1}: {what}",
+                                    f"scheme {naming}\ngeneration {gen + 1} of one kernel object (transformed again "
+                                    f"between generations)\nobligation: {what}\nreplay log: {log}\n",
+                                    name=f"{naming}_g{gen + 1}_{what[:40].replace(' ', '_').replace('/', '_')}.txt")
+                    chk.sample({"scheme": naming, "generation": gen + 1, "obligation": what,
+                                "verdict": "sat, replayed: " + rr, "log": str(log)[:300]}, 40)
+                elif ok is False:
+                    chk.count("sat_not_reproduced")
+                    chk.harness_error(f"model for '{what}' ({naming}, generation {gen + 1}) did not reproduce: {log}")
+                else:
+                    chk.count("inconclusive")
+                    chk.cov["by_products"].append({"obligation": what, "replay": str(log)[:300]})
         chk.cov.setdefault("encode_s", []).append(round(time.time() - t0, 2))
-    chk.cov["bounds"] = {"R_naming_attempts": R}
+    chk.cov["bounds"] = {"R_naming_attempts": R, "generations_of_one_kernel_object": G}
     chk.cov["states"] = max(1, chk.cov["queries"])
     chk.cov["transitions"] = max(1, chk.cov["queries"])
     chk.cov["traces_validated_against_impl"] = chk.cov["sat_replayed"]
